@@ -106,6 +106,11 @@ type shape struct {
 	Selector    map[string]string
 	Affinity    *corev1.Affinity
 	Tolerations []corev1.Toleration
+	// Exported: the template's metadata was copied from a live pod of another ExtendedDaemonSet ("kubectl get pod -o yaml"):
+	// it carries the controller's own labels and annotations with foreign values, a namespace and a generateName.
+	Exported bool
+	// Init: the template has an init container named "sidecar" (the name some settings and override annotations use)
+	Init bool
 }
 
 func (s shape) tpl(marker string) corev1.PodTemplateSpec {
@@ -113,6 +118,12 @@ func (s shape) tpl(marker string) corev1.PodTemplateSpec {
 	t.Spec.NodeSelector = s.Selector
 	t.Spec.Affinity = s.Affinity.DeepCopy()
 	t.Spec.Tolerations = append([]corev1.Toleration{}, s.Tolerations...)
+	if s.Exported {
+		kit.ExportedMeta(&t)
+	}
+	if s.Init {
+		t.Spec.InitContainers = []corev1.Container{{Name: "sidecar", Image: "img:init"}}
+	}
 	return t
 }
 
@@ -147,6 +158,8 @@ func genShape(r *rand.Rand) shape {
 			s.Tolerations = []corev1.Toleration{{Operator: corev1.TolerationOpExists, Effect: corev1.TaintEffectNoSchedule}}
 		}
 	}
+	s.Exported = r.Intn(5) == 0
+	s.Init = r.Intn(4) == 0
 	return s
 }
 
@@ -205,7 +218,7 @@ func genStrategy(r *rand.Rand, p Profile) (v1.ExtendedDaemonSetSpecStrategy, str
 	kind := "none"
 	if r.Float64() < p.CanaryProb {
 		c := &v1.ExtendedDaemonSetSpecStrategyCanary{}
-		reps := []intstr.IntOrString{intstr.FromInt(1), intstr.FromInt(2), intstr.FromString("50%")}
+		reps := []intstr.IntOrString{intstr.FromInt(1), intstr.FromInt(2), intstr.FromInt(3), intstr.FromInt(4), intstr.FromString("50%"), intstr.FromString("75%")}
 		if p.Big {
 			reps = []intstr.IntOrString{intstr.FromInt(7), intstr.FromInt(12), intstr.FromString("10%"), intstr.FromString("33%"), intstr.FromString("40%")}
 		}
@@ -224,12 +237,27 @@ func genStrategy(r *rand.Rand, p Profile) (v1.ExtendedDaemonSetSpecStrategy, str
 			}
 			kind = "auto"
 		}
-		if r.Intn(3) == 0 {
+		switch r.Intn(6) {
+		case 0, 1:
 			c.NodeAntiAffinityKeys = []string{"zone"}
+		case 2, 3:
+			// a label most nodes lack: the values are very unevenly distributed
+			c.NodeAntiAffinityKeys = []string{"type"}
+		}
+		switch r.Intn(12) {
+		case 0:
+			c.NodeSelector = &metav1.LabelSelector{MatchLabels: map[string]string{"role": "agent"}}
+		case 1:
+			c.NodeSelector = &metav1.LabelSelector{MatchExpressions: []metav1.LabelSelectorRequirement{{Key: "zone", Operator: metav1.LabelSelectorOpIn, Values: []string{"a", "b"}}}}
+		case 2:
+			c.NodeSelector = &metav1.LabelSelector{MatchExpressions: []metav1.LabelSelectorRequirement{{Key: "type", Operator: metav1.LabelSelectorOpDoesNotExist}}}
 		}
 		if r.Intn(4) == 0 {
 			f := false
 			c.AutoPause = &v1.ExtendedDaemonSetSpecStrategyCanaryAutoPause{Enabled: &f}
+		} else if r.Intn(3) == 0 {
+			// the optional, never defaulted slow-start supervision
+			c.AutoPause = &v1.ExtendedDaemonSetSpecStrategyCanaryAutoPause{MaxSlowStartDuration: &metav1.Duration{Duration: []time.Duration{time.Minute, 5 * time.Second}[r.Intn(2)]}}
 		}
 		if r.Intn(4) == 0 {
 			f := false
@@ -313,6 +341,14 @@ func (e *Sim) Run(ctx *core.Ctx, idx int) {
 		if e.P.MultiEDS && len(refs) == 0 && r.Intn(3) == 0 {
 			// a manifest shaped like a DaemonSet's: spec.selector repeats the pod template's labels
 			ed.Spec.Selector = &metav1.LabelSelector{MatchLabels: map[string]string{"app": "agent"}}
+		}
+		if sh.Exported {
+			// ... and the manifest itself was derived from a generated object (PodTemplate, replica set), which carries the
+			// hash of the template it was generated from in its own annotations
+			if ed.Annotations == nil {
+				ed.Annotations = map[string]string{}
+			}
+			ed.Annotations[v1.MD5ExtendedDaemonSetAnnotationKey] = "0123456789abcdef0123456789abcdef"
 		}
 		w.CreateEDS(ed)
 		refs = append(refs, edsRef{ns, name})
@@ -559,6 +595,18 @@ func (e *Sim) actionFrom(w *World, r *rand.Rand, ns, name string, sh shape, edit
 				t.Spec.Containers[0].Env = env
 			}
 			w.SetTemplate(ns, name, t)
+			if r.Intn(4) == 0 {
+				// like a chart upgrade: the metadata labels of the object change together with the template
+				w.S.Mutate(simapi.KindEDS, ns, name, func(o client.Object) {
+					l := o.GetLabels()
+					if l == nil {
+						l = map[string]string{}
+					}
+					l["helm.sh/chart"] = "agent-" + mk
+					o.SetLabels(l)
+				})
+				w.tracef("user: label helm.sh/chart=agent-%s on %s/%s", mk, ns, name)
+			}
 			edits[k]++
 		}},
 		{p.Edits / 3, func() {
@@ -690,6 +738,7 @@ func (e *Sim) actionFrom(w *World, r *rand.Rand, ns, name string, sh shape, edit
 				b.StuckTerminating = true
 			case 5:
 				b.PhaseOverride = corev1.PodFailed
+				b.FailReason = []string{"", "OutOfcpu", "NodeAffinity", "OutOfpods"}[r.Intn(4)]
 			case 6:
 				b.PhaseOverride = corev1.PodUnknown
 			case 7:
